@@ -76,7 +76,7 @@ class Gen:
     def missing(self):
         if self.rng.random() < 0.15:
             # a literal that the target never equals: MatchError, whose message shows the target's repr
-            return ['MatchLit', 'never-equal']
+            return ['SpecWrap', ['MatchLit', 'never-equal']]
         return self.rng.choice([['str', 'zz'], ['T', 'T', [['[', 'zz']]], ['str', 'zz.y'],
                                 ['T', 'S', [['.', 'unbound_name']]], ['T', 'S', [['[', 'unbound_key']]]])
 
@@ -104,7 +104,14 @@ class Gen:
         if depth >= self.max_depth:
             return self.leaf_spec(t)
         c = rng.choice(['dict', 'dict', 'chain', 'chain', 'coalesce', 'coalesce', 'or', 'switch', 'switch', 'list',
-                        'leaf', 'and', 'check'])
+                        'leaf', 'and', 'check', 'matchor'])
+        if depth == 0 and rng.random() < 0.02:
+            # a DEEP failure: every level between the root spec and the innermost failing spec is listed,
+            # however many there are
+            inner = self.missing() if rng.random() < 0.7 else self.spec(t, self.max_depth - 1)[0]
+            for i in range(rng.randint(40, 70)):
+                inner = ['dict', [[f'd{i % 3}', inner]]] if i % 4 else ['tuple', [['T', 'T', []], inner]]
+            return inner, None
         d = depth + 1
         if c == 'leaf':
             return self.leaf_spec(t)
@@ -151,6 +158,10 @@ class Gen:
             subs = [self.missing() if rng.random() < 0.4 else self.spec(t, d)[0] for _ in range(rng.randint(1, 3))]
             o = {'default': 'odef'} if rng.random() < 0.2 else {}
             return ['Or', subs, o], None
+        if c == 'matchor':
+            # Match(Or(type, type, ...)): every type that was tried and did not fit is an attempted branch
+            types = rng.sample(['int', 'str', 'list', 'dict', 'float', 'tuple'], rng.randint(2, 4))
+            return ['SpecWrap', ['MatchOf', ['Or', [['type', tn] for tn in types], {}]]], None
         if c == 'check':
             # fails by itself (CheckError) after its sub-spec — often a recovered branch — succeeded
             return ['Check', self.spec(t, d)[0], {'equal_to': 'never-equal'}], None
